@@ -1,0 +1,36 @@
+//go:build verif
+
+package webserver
+
+import (
+	"net/http"
+	"os"
+)
+
+// Exports for the C19 (path confinement) correspondence driver.  Add-only.
+
+func VerifPathsParseGroupName(prefix, p string) string {
+	return parseGroupName(prefix, p)
+}
+
+func VerifPathsSplitPath(pth string) (string, string, string) {
+	return splitPath(pth)
+}
+
+// VerifPathsAPIGroupHandler runs the handler of /galene-api/v0/.groups<pth>.
+func VerifPathsAPIGroupHandler(w http.ResponseWriter, r *http.Request, pth string) {
+	apiGroupHandler(w, r, pth)
+}
+
+// VerifPathsGroupAction runs the POST action handler of /recordings/<group>/.
+func VerifPathsGroupAction(w http.ResponseWriter, r *http.Request, group string) {
+	handleGroupAction(w, r, group)
+}
+
+// VerifPathsSetStaticRoot opens the static root as Serve does (the error
+// pages of the handlers read from it).
+func VerifPathsSetStaticRoot(dir string) error {
+	var err error
+	staticRoot, err = os.OpenRoot(dir)
+	return err
+}
